@@ -325,6 +325,13 @@ def load_known(prop):
 
 # --------------------------------------------------------------------------- main driver
 
+def regen_of(label, header):
+    m = re.match(r"gen:([^:]+):seed=(\d+):n=(\d+)", label or "")
+    if not m:
+        return None
+    return {"stream": m.group(1), "seed": int(m.group(2)), "case_id": int(header.split()[1])}
+
+
 def write_replay(prop, name, payload):
     d = os.path.join(ROOT, "replays")
     os.makedirs(d, exist_ok=True)
@@ -409,9 +416,17 @@ def run_check(prop, plugin, tier, seed, replay=None):
                 txt = rp.get("case") or ""
                 stream = rp.get("stream") or streams[0][0]
                 open(os.path.join(outdir, "replay_case.txt"), "w").write(txt)
+                regen = rp.get("regen")
                 for rel in ([False, True] if release else [False]):
-                    c, i, st = run_impl(stream, ["replay", os.path.join(outdir, "replay_case.txt")], outdir, rel)
-                    m = run_model(stream, outdir)
+                    if regen:
+                        # view-based streams: the case is regenerated from its seed and position
+                        c, i, st = run_impl(stream, ["gen", str(regen["seed"]), str(regen["case_id"] + 1)], outdir, rel)
+                        m = run_model(stream, outdir)
+                        keep = str(regen["case_id"])
+                        c = "".join(case_text(h, o) for (cid, h, o) in parse_cases(c) if cid == keep)
+                    else:
+                        c, i, st = run_impl(stream, ["replay", os.path.join(outdir, "replay_case.txt")], outdir, rel)
+                        m = run_model(stream, outdir)
                     process(stream, c, i, m, "replay" + (":release" if rel else ""))
             else:
                 # ---- C corpus: corpus/<prop>/<stream>-*.txt
@@ -474,7 +489,7 @@ def run_check(prop, plugin, tier, seed, replay=None):
         ops = plugin.shrink(f["stream"], f["header"], f["ops"], f["impl"], f["failure"]) if hasattr(plugin, "shrink") else f["ops"]
         path = write_replay(prop, "%s-%d-oracle-%s.json" % (prop, seed, re.sub(r"\W+", "_", cls)[:40]),
                             {"property": prop, "kind": "property-fails-on-implementation", "seed": seed, "stream": f["stream"],
-                             "where": f["label"], "failure": f["failure"],
+                             "where": f["label"], "failure": f["failure"], "regen": regen_of(f["label"], f["header"]),
                              "case": case_text(f["header"], ops), "impl_observations": f["impl"]})
         violations.append((path, False))
     if disagreements:
@@ -489,7 +504,7 @@ def run_check(prop, plugin, tier, seed, replay=None):
                                  "detail": "implementation and Coq model disagree; the oracle found no input on which "
                                            "the property itself fails (%d cases searched)" % n_cases,
                                  "correspondence": "pgh %s vs extracted %s" % (d["stream"], ", ".join(plugin.MODEL_FILES)),
-                                 "where": d["label"], "first_difference_at_op": k,
+                                 "where": d["label"], "first_difference_at_op": k, "regen": regen_of(d["label"], d["header"]),
                                  "case": case_text(d["header"], d["ops"][:k + 1] if isinstance(k, int) else d["ops"]),
                                  "impl_observations": obs_prefix(d["impl"], k),
                                  "model_observations": obs_prefix(d["model"], k),
